@@ -1670,8 +1670,10 @@ func main() {
 		os.Exit(2)
 	}
 	ok := "(* generated by harness/cmd/gen_metrics; the obligation a code edit breaks *)\n" +
-		"From KB Require Import Base.Bytes Model.Metrics Gen.MetricsTable.\n" +
-		"Theorem table_ok : check_translated wrapper_value_path_identity metrics_globals metrics_table = true.\nProof. vm_compute. reflexivity. Qed.\n"
+		"From KB Require Import Base.Bytes Model.Metrics Model.HandlerMetrics Gen.MetricsTable.\n" +
+		"Theorem table_ok : check_translated wrapper_value_path_identity metrics_globals metrics_table = true.\nProof. vm_compute. reflexivity. Qed.\n" +
+		"(* every metric row of the handler model (Model/HandlerMetrics.v) is covered by a row of the regenerated table *)\n" +
+		"Theorem handlers_covered : covers metrics_table all_handler_rows = true.\nProof. vm_compute. reflexivity. Qed.\n"
 	if err := os.WriteFile(filepath.Join(gen, "MetricsTableOk.v"), []byte(ok), 0o644); err != nil {
 		fmt.Fprintln(os.Stderr, err)
 		os.Exit(2)
